@@ -50,9 +50,10 @@ Qed.
 
 (* normalise record projections of functional updates (never touches N arithmetic) *)
 Ltac snorm :=
-  unfold add_dirty, add_dirty_range, erase_row_range, carriage_return, set_x, set_y, set_attr, set_hidden,
-         cx, cy, ax, ay, aattr, a_x, a_y, a_xy, a_cr, a_fill_row, a_dirty_add, a_dirty_range, a_all_dirty,
-         a_with_cur, a_with_grid, a_with_dirty, a_with_margins, a_with_mode, a_with_tabs, a_with_cs, a_with_sp,
+  unfold add_dirty, add_dirty_range, erase_row_range, carriage_return, set_x, set_y, set_attr, set_hidden, cx, cy in *;
+  unfold a_cr in *; unfold a_x, a_y in *; unfold a_xy in *; unfold a_all_dirty in *;
+  unfold a_dirty_add, a_dirty_range, a_fill_row in *; unfold ax, ay, aattr in *;
+  unfold a_with_cur, a_with_grid, a_with_dirty, a_with_margins, a_with_mode, a_with_tabs, a_with_cs, a_with_sp,
          a_with_savedcols, abs in *;
   unfold set_dirty, set_buffer, set_cur, set_margins_f, set_mode_f, set_size, set_savepoints, set_tabstops,
          set_charset, set_g0, set_g1, set_title_f, set_icon_f, set_saved_columns in *;
